@@ -189,7 +189,7 @@ def cases(srcs):
                             continue
                         new = dict(srcs)
                         new[mod] = _insert(src, line, indent, t)
-                        yield (f"{owner}.run/{label}@{w}", must_fail, new, t)
+                        yield (f"{owner}.run/{label}@{w}", must_fail, new, t, (mod, owner))
 
             extra = {}
             if hcname:
@@ -212,7 +212,7 @@ def cases(srcs):
                             n.id = n.id + "_rn"
             new = dict(srcs)
             new[mod] = ast.unparse(tree)
-            yield (f"{owner}.run/renamed-locals", False, new, "locals renamed")
+            yield (f"{owner}.run/renamed-locals", False, new, "locals renamed", (mod, owner))
 
 
 def _names_of(t):
@@ -226,14 +226,20 @@ def run(srcs):
     except (T.Fail, SyntaxError, IndexError, ValueError):
         return []
     out = []
-    for label, must_fail, new, text in cases(srcs):
+    bases = {}
+    for label, must_fail, new, text, (mod, owner) in cases(srcs):
+        # only the classes whose run() is the modified one are re-translated (the others read the same text as before)
+        cl = [(m, c) for (m, c) in T.CLASSES if m == mod and T.find_run({mod: T._parse(srcs[mod])}, mod, c)[1] == owner]
+        if (mod, owner) not in bases:
+            bases[(mod, owner)] = T.translate_sources(srcs, cl)[0]
+        base = bases[(mod, owner)]
         try:
-            ast.parse(new["ssi"]), ast.parse(new["plscf"])
+            ast.parse(new[mod])
         except SyntaxError as e:  # a template that does not fit this source: not a verdict
             out.append((label, None, f"template does not parse here: {e}"))
             continue
         try:
-            got, _ = T.translate_sources(new)
+            got, _ = T.translate_sources(new, cl)
             failed, why = False, ""
         except (T.Fail, IndexError, ValueError) as e:
             failed, why = True, str(e)
